@@ -43,17 +43,26 @@ func (w *world) evalImages(r *replica, depth int) {
 		}
 		w.out.Probe("images-sampled")
 	}
-	seen := map[uint64]bool{}
+	if w.seenImages == nil {
+		w.seenImages = map[uint64]bool{}
+	}
+	budget := maxImagesPerReplica
+	if depth > 1 {
+		budget = 6 // recursion is sampled
+	}
 	for i := range imgs {
-		if !pick[i] || w.failed() {
+		if !pick[i] || w.failed() || budget <= 0 {
 			continue
 		}
 		im := imgs[i]
-		h := core.Mix(im.img.Hash(), im.lower, im.upper)
-		if seen[h] {
+		// the verdict is a function of (image, bounds, log): evaluate each combination once per run
+		h := core.Mix(im.img.Hash(), im.lower, im.upper, uint64(r.format))
+		if w.seenImages[h] {
+			w.out.Probe("image-duplicate-skipped")
 			continue
 		}
-		seen[h] = true
+		w.seenImages[h] = true
+		budget--
 		w.evalImage(r, im, depth)
 	}
 }
@@ -69,7 +78,8 @@ func (w *world) evalImage(parent *replica, im evalImage, depth int) {
 	r.syncedIdx.Store(im.lower)
 	r.startedIdx.Store(im.upper)
 	r.fs = crashfs.Mount(im.img)
-	if depth < 2 && w.cfg.HarvestDeep {
+	deep := depth < 2 && w.cfg.HarvestDeep && (im.mid || core.Mix(im.img.Hash(), 11)%4 == 0)
+	if deep {
 		w.instrument(r, r.fs)
 	}
 	w.out.Probe("image-evaluated")
@@ -143,7 +153,7 @@ func (w *world) evalImage(parent *replica, im evalImage, depth int) {
 			return
 		}
 	}
-	if depth < 2 && w.cfg.HarvestDeep {
+	if deep {
 		_ = guard(func() { _ = r.sm.Close() })
 		r.open = false
 		quiesce()
